@@ -62,6 +62,7 @@ func TestC16(t *testing.T) {
 		c := &Case{Prop: "C16", Kind: "container", Vars: map[string]lang.Value{}, Obj: &eng.ObjSpec{Mode: rapid.SampledFrom([]string{"map", "struct", "ptr"}).Draw(rt, "mode")}}
 		c.NoOpt = rapid.Bool().Draw(rt, "noopt")
 		prelude := ""
+		decoy := ""
 		v := drawContainer(rt)
 		var ce lang.Expr
 		var clen int
@@ -103,6 +104,15 @@ func TestC16(t *testing.T) {
 			if rapid.Bool().Draw(rt, "rangevar") {
 				prelude = "R = " + lang.ExprText(ce) + ";\n"
 				ce = lang.Name{N: "R"}
+			}
+			if gen.Uniform(rt, "rangedecoy", 3) == 0 && lo > math.MinInt64+4 && hi >= lo {
+				// another range first, with one bound in common: every range is its own
+				dlo, dhi := lo-2, hi
+				if rapid.Bool().Draw(rt, "decoyupper") && hi < math.MaxInt64-2 {
+					dlo, dhi = lo, hi+2
+				}
+				decoy = "Decoy = " + lang.ExprText(lang.Binary{Op: "..", L: lang.Lit{V: lang.Int(dlo)}, R: lang.Lit{V: lang.Int(dhi)}}) + ";\n"
+				col.Class("range-after-a-range-sharing-a-bound")
 			}
 		} else {
 			prov := rapid.IntRange(0, 3).Draw(rt, "prov")
@@ -155,6 +165,24 @@ func TestC16(t *testing.T) {
 		case "in":
 			var el lang.Value
 			switch {
+			case v.K == lang.KArray && gen.Uniform(rt, "oddfloats", 6) == 0:
+				// membership is by type and printed form: not-a-number is found
+				// where it is, minus zero is not zero; such numbers come from the host
+				odd := []float64{math.NaN(), math.Copysign(0, -1), 0, math.Inf(1), math.Inf(-1), 5e-324}
+				arr := lang.Array(lang.Int(0), lang.Str("NaN"), lang.Str("-0"))
+				for _, f := range odd {
+					if rapid.Bool().Draw(rt, "oddmember") {
+						arr.A = append(arr.A, lang.Float(f))
+					}
+				}
+				c.Vars["OddArr"] = arr
+				m.Globals["OddArr"] = arr
+				needle := lang.Float(odd[gen.Uniform(rt, "oddneedle", len(odd))])
+				c.Vars["OddNeedle"] = needle
+				m.Globals["OddNeedle"] = needle
+				body = []lang.Stmt{lang.Return{X: lang.Binary{Op: "in", L: lang.Name{N: "OddNeedle"}, R: lang.Name{N: "OddArr"}}}}
+				boundary = true
+				col.Class("in-with-NaN-zeros-infinities-from-the-host")
 			case v.K == lang.KArray && len(v.A) > 0 && rapid.Bool().Draw(rt, "present"):
 				el = rapid.SampledFrom(v.A).Draw(rt, "el")
 				boundary = true
@@ -167,10 +195,12 @@ func TestC16(t *testing.T) {
 			default:
 				el = gen.Value(rt, "absent", gen.ValueOpts{Depth: 1, NoKeyTies: true})
 			}
-			if !gen.LiteralOK(el) {
-				el = lang.Int(1)
+			if body == nil {
+				if !gen.LiteralOK(el) {
+					el = lang.Int(1)
+				}
+				body = []lang.Stmt{lang.Return{X: lang.Binary{Op: "in", L: lang.ValueExpr(el), R: ce}}}
 			}
-			body = []lang.Stmt{lang.Return{X: lang.Binary{Op: "in", L: lang.ValueExpr(el), R: ce}}}
 		case "len":
 			body = []lang.Stmt{lang.Return{X: lang.Call{Fn: "len", Args: []lang.Expr{ce}}}}
 			boundary = true
@@ -255,6 +285,7 @@ func TestC16(t *testing.T) {
 				c.Exp = Expect{Err: true, Why: "reversed range"}
 			}
 		}
+		c.Script = decoy + c.Script
 		if e := runCase(c); e != nil {
 			violation(rt, "C16", c, "%v", e)
 		}
